@@ -3,9 +3,13 @@
 // Engine E3: two real zcrypto tls.Conn (package tls compiled from copies whose
 // sync / sync/atomic imports are redirected to the vsched shims) joined by an
 // in-memory pipe whose reads/writes are scheduling points. After a quiet
-// (unexplored) handshake, every interleaving of the scenario's API calls with at
-// most PB preemptions is executed; a -race build repeats the exploration so that
-// ThreadSanitizer judges each explored schedule.
+// (unexplored) handshake -- or, for the fresh-connection scenarios, with the
+// handshake itself explored (implicit handshake of Read/Write) -- every
+// interleaving of the scenario's API calls with at most PB preemptions is
+// executed; a -race build repeats the exploration so that ThreadSanitizer judges
+// each explored schedule. The connection under test is the client end or, for a
+// subset of scenarios, the server end; the peer runs on its own thread and may
+// close (with or without close_notify) while calls are pending.
 package main
 
 import (
@@ -611,6 +615,17 @@ func interleavingOf(got []byte, parts ...[]byte) bool {
 	return false
 }
 
+// cutOK: what the peer may have received of a payload whose Write returned an error because a Close cut it:
+// nothing or all of it, and at TLS 1.0 with a CBC suite also just its first byte (the 1/n-1 split puts that byte
+// into a record of its own, so it is an authentic prefix at a record boundary). The payloads here fit one record
+// otherwise, so any other proper prefix would be an altered record.
+func cutOK(j job, got, pay []byte) bool {
+	if len(got) == 0 || bytes.Equal(got, pay) {
+		return true
+	}
+	return j.Vers == tls.VersionTLS10 && bytes.Equal(got, pay[:1])
+}
+
 // judge: "" or (violation class, detail)
 func judge(j job, res vsched.Result, o *obs) (string, string) {
 	if res.Panic != "" {
@@ -664,7 +679,7 @@ func judge(j job, res vsched.Result, o *obs) (string, string) {
 			if !bytes.Equal(o.peer, payA) {
 				return "Write returned nil but the peer did not receive the payload intact", fmt.Sprintf("%q", o.peer)
 			}
-		} else if len(o.peer) != 0 && !bytes.Equal(o.peer, payA) {
+		} else if !cutOK(j, o.peer, payA) {
 			return "peer received a partial or altered payload", fmt.Sprintf("%q", o.peer)
 		}
 	case "read-deadline":
@@ -676,7 +691,7 @@ func judge(j job, res vsched.Result, o *obs) (string, string) {
 		if w == "nil" && !bytes.Equal(o.peer, payA) {
 			return "Write returned nil but the peer did not receive the payload intact", fmt.Sprintf("%q", o.peer)
 		}
-		if w != "nil" && len(o.peer) != 0 && !bytes.Equal(o.peer, payA) {
+		if w != "nil" && !cutOK(j, o.peer, payA) {
 			return "peer received a partial or altered payload", fmt.Sprintf("%q", o.peer)
 		}
 		if g("closewrite") != "nil" {
@@ -713,7 +728,7 @@ func judge(j job, res vsched.Result, o *obs) (string, string) {
 			if !bytes.Equal(o.peer, payA) {
 				return "Write returned nil but the peer did not receive the payload intact", fmt.Sprintf("%q", o.peer)
 			}
-		} else if len(o.peer) != 0 && !bytes.Equal(o.peer, payA) {
+		} else if !cutOK(j, o.peer, payA) {
 			return "peer received a partial or altered payload", fmt.Sprintf("%q", o.peer)
 		}
 		if g("close") != "nil" && !strings.HasPrefix(g("close"), "err:") {
@@ -771,7 +786,7 @@ func judge(j job, res vsched.Result, o *obs) (string, string) {
 		if w == "nil" && !bytes.Equal(o.peer, payA) {
 			return "Write returned nil but the peer did not receive the payload intact", fmt.Sprintf("%q", o.peer)
 		}
-		if w != "nil" && len(o.peer) != 0 && !bytes.Equal(o.peer, payA) {
+		if w != "nil" && !cutOK(j, o.peer, payA) {
 			return "peer received a partial or altered payload", fmt.Sprintf("%q", o.peer)
 		}
 		if g("deadline") != "nil" {
@@ -861,6 +876,7 @@ func worker(js string) {
 		repo = "/repo"
 	}
 	seen := map[string]bool{}
+	stopEarly := false
 	deadline := time.Now().Add(scaled(100 * time.Second))
 	if os.Getenv("VERIF_TIER") == "thorough" {
 		deadline = time.Now().Add(scaled(20 * time.Minute))
@@ -880,6 +896,9 @@ func worker(js string) {
 					kv = append(kv, o.key[i]+"="+o.val[i])
 				}
 				sort.Strings(kv)
+				if x.Result.Horizon {
+					stopEarly = true // a livelocked execution has thousands of choice points: its alternatives say nothing more
+				}
 				if cls != "" {
 					sig := j.Scen + ": " + cls
 					if !seen[sig] {
@@ -910,7 +929,7 @@ func worker(js string) {
 				if len(out.Samples) < 1 && x.Preempt > 0 {
 					out.Samples = append(out.Samples, map[string]any{"job": j, "schedule": x.Choices, "observations": kv, "choice_points": len(x.Result.Points), "steps": x.Result.Steps})
 				}
-				return true
+				return !stopEarly
 			})
 		out.Stats.Execs += st.Execs
 		out.Stats.Points += st.Points
@@ -997,7 +1016,13 @@ func jobsFor(thorough, race bool) []job {
 				pb = 0
 			}
 		}
-		if thorough && n != "fresh-write-read-state" { // 50k-76k schedules at bound 1: bound 2 is out of reach; fresh-read-write goes there instead
+		switch {
+		case !thorough:
+		case n == "fresh-write-read-state" && !race:
+			// 50k-76k schedules at bound 1: bound 2 is out of reach; fresh-read-write goes there instead
+		case race && (n == "ticket-read-write-state" || n == "write-write-big"):
+			// 365k / 126k schedules at bound 2, 5-6 ms each under ThreadSanitizer: stays at bound 1 in the race pass
+		default:
 			pb++
 		}
 		return pb
@@ -1027,20 +1052,15 @@ func jobsFor(thorough, race bool) []job {
 		out = append(out, job{Scen: "write-write-big", Vers: tls.VersionTLS10, PB: pbFor("write-write-big"), Race: race})
 		out = append(out, job{Scen: "write-close", Vers: tls.VersionTLS10, PB: pbFor("write-write-big"), Race: race})
 	}
-	// longest first, so that the long jobs do not start last (measured execution counts, quick tier)
-	weight := func(j job) int {
-		switch {
-		case j.Scen == "keyupdate-read-write":
-			return 9
-		case exploresHandshake(j.Scen):
-			return 8
-		case j.Scen == "write-write" || j.Scen == "write-write-big":
-			return 7
-		case !isNew[j.Scen]:
-			return 5
-		}
-		return 1
+	// longest first, so that the long jobs do not start last (weights from measured run times of the quick tier:
+	// the race build is dominated by the cost of an execution under ThreadSanitizer, the normal build by the number of schedules)
+	heavy := map[string]int{"keyupdate-read-write": 9, "fresh-write-read-state": 9, "handshake-handshake-state": 8, "write-write": 7,
+		"read-read": 6, "write-close": 6, "read-close": 6, "read-write": 5, "ticket-read-write-state": 5, "closewrite-write-state": 4, "write-write-big": 4}
+	if race {
+		heavy = map[string]int{"ticket-read-write-state": 9, "write-write-big": 9, "closewrite-write-state": 8, "keyupdate-read-write": 6,
+			"deadlines-read": 6, "write-write": 5, "close-close": 4, "fresh-write-read-state": 4}
 	}
+	weight := func(j job) int { return heavy[j.Scen] }
 	sort.SliceStable(out, func(a, b int) bool { return weight(out[a]) > weight(out[b]) })
 	return out
 }
@@ -1102,6 +1122,8 @@ func main() {
 		if thorough {
 			perJob = scaled(24 * time.Minute)
 		}
+		perJobStats := map[string]any{}
+		defer func() { c.Set("per_job", perJobStats) }()
 		merge := func(outs []vx.WorkerOut, tag string) {
 			for _, o := range outs {
 				if o.Broken != "" {
@@ -1122,10 +1144,15 @@ func main() {
 				c.Transitions.Add(o.Stats.Steps)
 				c.Evaluations.Add(int64(o.Stats.Execs))
 				c.Add(tag+"_choice_points", o.Stats.Points)
+				perJobStats[tag+" "+o.Job] = map[string]any{"executions": o.Stats.Execs, "max_choice_points": o.Stats.MaxPoints, "bound_completed": o.Bound, "complete": o.Stats.Complete}
 				var j job
 				json.Unmarshal([]byte(o.Job), &j)
+				role := ""
+				if j.Role != "" {
+					role = "/" + j.Role
+				}
 				for k, n := range o.Outcomes {
-					c.Outcome(fmt.Sprintf("%s %s/%x: %s", tag, j.Scen, j.Vers, k), n)
+					c.Outcome(fmt.Sprintf("%s %s/%x%s: %s", tag, j.Scen, j.Vers, role, k), n)
 				}
 				for _, v := range o.Violations {
 					c.Violation(v.Sig, v.Witness)
@@ -1142,24 +1169,30 @@ func main() {
 		for _, j := range jobsFor(thorough, false) {
 			jobs = append(jobs, j.String())
 		}
+		t0 := time.Now()
 		merge(vx.RunWorkers(self, []string{"VERIF_TIER=" + c.Tier}, jobs, c.Workers(), perJob), "sched")
 		c.Set("scenario_jobs", len(jobs))
+		c.Set("sched_pass_wall_s", int(time.Since(t0).Seconds()))
 		if raceBin == "" {
 			c.Broken("race binary not built (C34_RACE_BIN unset)")
 		}
 		os.MkdirAll(filepath.Join(ev.VerifDir, ".work"), 0o755)
 		raceLog := filepath.Join(ev.VerifDir, ".work", fmt.Sprintf("c34-race-%d", os.Getpid()))
 		renv := []string{"GORACE=log_path=" + raceLog + " halt_on_error=0", "VX_RACELOG=" + raceLog, "VERIF_TIER=" + c.Tier}
+		tc := time.Now()
 		can := vx.RunWorkers(raceBin, append(renv, "C34_CANARY=1"), []string{`{"scenario":"canary"}`}, 1, 300*time.Second)
 		if len(can) != 1 || can[0].Broken != "" || len(can[0].Races) != 1 || can[0].Races[0] != "canary: racy=1 locked=0" {
 			c.Broken("race canary failed: %+v", can)
 		}
+		c.Set("canary_wall_s", int(time.Since(tc).Seconds()))
 		var rjobs []string
 		for _, j := range jobsFor(thorough, true) {
 			rjobs = append(rjobs, j.String())
 		}
+		t1 := time.Now()
 		merge(vx.RunWorkers(raceBin, renv, rjobs, c.Workers(), perJob), "race")
 		c.Set("race_jobs", len(rjobs))
+		c.Set("race_pass_wall_s", int(time.Since(t1).Seconds()))
 		ms, _ := filepath.Glob(raceLog + ".*")
 		for _, m := range ms {
 			os.Remove(m)
